@@ -7,6 +7,7 @@ import Chrono.Proofs.TzEncL
 import Chrono.Proofs.TzSamples
 import Chrono.Proofs.TzValidL
 import Chrono.Proofs.TzLookupPL
+import Chrono.Proofs.TzLayoutL
 
 namespace Chrono.Props.C16
 open Chrono Chrono.M.Tz Chrono.Spec.Tz Chrono.Spec.Tz.Gr Chrono.Proofs.Tz Chrono.Proofs.TzValid
@@ -424,6 +425,122 @@ example :
     rw [e] at h2
     cases h2
     exact ⟨1700000000, by decide, by decide +kernel⟩
+
+/-! ### inconsistent data is rejected (stated on the input) -/
+
+/-- COUNTS THAT DISAGREE WITH THE DATA: an accepted file has exactly the layout its header counts
+announce.  Version 1: the file is the 44-byte header plus the data block of the size the six counts
+give (`announcedLen 4`) and nothing else — any other length is rejected.  Versions 2 and 3: that,
+followed by the second header and ITS announced block with 8-byte times, followed by a footer that
+starts and ends with a newline.  (`hdrCount` reads the big-endian counts at byte offsets 20…43.) -/
+theorem accepted_layout (bytes : List Nat) (z : Zone) (h : parse bytes = .ok z) :
+    (versionOf ((bytes.drop 4).take 1) = some .V1 → bytes.length = announcedLen 4 bytes)
+      ∧ (versionOf ((bytes.drop 4).take 1) ≠ some .V1 →
+          bytes.length = announcedLen 4 bytes + announcedLen 8 (bytes.drop (announcedLen 4 bytes))
+              + (footerOf bytes).length
+            ∧ (footerOf bytes).head? = some 10 ∧ (footerOf bytes).getLast? = some 10) :=
+  accepted_layout' bytes z h
+
+/-- … hence: a version-1 file whose length differs from what its counts announce is rejected, and so
+is a version-2/3 file not longer than its two announced blocks (the footer has at least its first
+newline) -/
+theorem rejects_count_mismatch (bytes : List Nat) :
+    (versionOf ((bytes.drop 4).take 1) = some .V1 → bytes.length ≠ announcedLen 4 bytes →
+        parse bytes = .err)
+      ∧ (versionOf ((bytes.drop 4).take 1) ≠ some .V1 →
+          bytes.length ≤ announcedLen 4 bytes + announcedLen 8 (bytes.drop (announcedLen 4 bytes)) →
+        parse bytes = .err) := by
+  constructor
+  · intro hv hne
+    cases hp : parse bytes with
+    | ok z => exact absurd ((accepted_layout bytes z hp).1 hv) hne
+    | err => rfl
+    | panic => exact absurd hp (parse_total bytes)
+  · intro hv hlt
+    cases hp : parse bytes with
+    | ok z =>
+      exfalso
+      obtain ⟨h1, h2, -⟩ := (accepted_layout bytes z hp).2 hv
+      cases hf : footerOf bytes with
+      | nil => rw [hf] at h2; cases h2
+      | cons a t =>
+        rw [hf] at h1
+        simp only [List.length_cons] at h1
+        omega
+    | err => rfl
+    | panic => exact absurd hp (parse_total bytes)
+
+/-- THE READER'S VALUE ON EVERY WRITTEN FILE, versions 2 and 3.  For every file written by the
+specification's writer whose counts fit the header (`BlockShape`) and whose values merely fit their
+fields (`BlockFits`: times `i64`, offsets and corrections `i32` — NO condition on order, indices,
+designations or the rule), with any admissible footer: `parse` returns the written zone if the written
+data are `Consistent` (legal type records, admissible indicators, strictly increasing transitions,
+type indices in range, leap-table constraints, rule agreeing with the last transition) and `Err`
+otherwise. -/
+theorem parse_written (f : TzFile) (hver : f.version ≠ .V1) (hs1 : BlockShape f.v1)
+    (hs2 : BlockShape f.v2) (hfit : BlockFits f.version 8 f.v2) (rule : Option Rule)
+    (hfoot : FooterOk f.version f.footer rule) :
+    (Consistent f.v2 rule → parse (encodeTzif f) = .ok (absBlock f.v2 rule))
+      ∧ (¬ Consistent f.v2 rule → parse (encodeTzif f) = .err) :=
+  parse_written_v2' f hver hs1 hs2 hfit rule hfoot
+
+/-- the same for version 1 (32-bit times, no footer, no rule) -/
+theorem parse_written_v1 (f : TzFile) (hver : f.version = .V1) (hs : BlockShape f.v1)
+    (hfit : BlockFits .V1 4 f.v1) :
+    (Consistent f.v1 none → parse (encodeTzif f) = .ok (absBlock f.v1 none))
+      ∧ (¬ Consistent f.v1 none → parse (encodeTzif f) = .err) :=
+  parse_written_v1' f hver hs hfit
+
+/-- the classes the property names, each on its own: a written file (v2/v3; values fitting their
+fields, admissible footer) is REJECTED if its transitions are not strictly increasing, or a
+transition's type index is out of bounds, or a type's designation index is out of bounds, or an
+offset is `i32::MIN`, or the indicator arrays contain the forbidden couple, or the leap-second table
+violates its constraints, or the footer rule disagrees with the last transition -/
+theorem rejects_written_classes (f : TzFile) (hver : f.version ≠ .V1) (hs1 : BlockShape f.v1)
+    (hs2 : BlockShape f.v2) (hfit : BlockFits f.version 8 f.v2) (rule : Option Rule)
+    (hfoot : FooterOk f.version f.footer rule)
+    (h : ¬ SortedStrict (absBlock f.v2 rule).transitions
+      ∨ (∃ t ∈ f.v2.trans, f.v2.types.length ≤ t.2)
+      ∨ (∃ t ∈ f.v2.types, f.v2.names.length ≤ t.abbr)
+      ∨ (∃ t ∈ f.v2.types, t.off = I32_MIN)
+      ∨ badIndicators f.v2.types.length f.v2.stdWalls f.v2.utLocals = true
+      ∨ checkLeaps (absBlock f.v2 rule).leaps = false
+      ∨ ¬ RuleAgrees (absBlock f.v2 rule)) :
+    parse (encodeTzif f) = .err := by
+  refine (parse_written f hver hs1 hs2 hfit rule hfoot).2 ?_
+  rintro ⟨c1, c2, c3, c4, c5, c6⟩
+  rcases h with h | ⟨t, ht, hle⟩ | ⟨t, ht, hle⟩ | ⟨t, ht, hmin⟩ | h | h | h
+  · exact h c3
+  · have := c4 ⟨t.1, t.2⟩ (by
+      simp only [absBlock, List.mem_map]
+      exact ⟨t, ht, rfl⟩)
+    simp only [absBlock, List.length_map] at this
+    omega
+  · have := (c1 t ht).2.2.1
+    omega
+  · exact (c1 t ht).2.1 hmin
+  · rw [h] at c2; cases c2
+  · rw [h] at c5; cases c5
+  · exact h c6
+
+/-- non-vacuity: `sampleV2`'s values fit their fields and its data are consistent; swapping its two
+transition times gives an unsorted table, which `rejects_written_classes` rejects -/
+example :
+    BlockFits sampleV2.version 8 sampleV2.v2 ∧ Consistent sampleV2.v2 (some sampleRule2)
+      ∧ parse (encodeTzif { sampleV2 with v2 := { sampleV2.v2 with trans := [(1700000000, 1), (1000000000, 0)] } })
+          = .err := by
+  have hfit : BlockFits sampleV2.version 8 sampleV2.v2 :=
+    ⟨sampleV2_vals.trans, fun t ht => (sampleV2_vals.types t ht).1, sampleV2_vals.leaps⟩
+  refine ⟨hfit, ⟨sampleV2_vals.types, sampleV2_vals.ind,
+    show (1000000000 : Int) < 1700000000 ∧ True from ⟨by decide, trivial⟩, by decide, by decide,
+    sampleV2_agrees⟩, ?_⟩
+  refine rejects_written_classes _ (by decide) sampleV2_shape1
+    ⟨by decide, by decide, by decide, by decide, by decide, by decide, by decide, by decide⟩
+    ⟨by decide +kernel, by decide +kernel, by decide +kernel⟩ (some sampleRule2)
+    (Or.inr ⟨sampleRule2, rfl, tz_accepts_only _ _ _ (tz_spellings_samples (false, _, _) (by decide))⟩)
+    (Or.inl ?_)
+  show ¬ ((1700000000 : Int) < 1000000000 ∧ True)
+  intro h; exact absurd h.1 (by decide)
 
 /-- non-vacuity: every cut point of the three sample files (kernel evaluation) -/
 example :
